@@ -1,0 +1,29 @@
+//go:build verif
+
+// Package verifhook provides labelled schedule points for the verification
+// harness in /verif. With the "verif" build tag a harness can install a callback
+// at a label; without the tag every call compiles to nothing.
+package verifhook
+
+import "sync"
+
+var hooks sync.Map // label -> func()
+
+// Enabled reports whether hooks are compiled in.
+const Enabled = true
+
+// Set installs (or, with f == nil, removes) the callback run at label.
+func Set(label string, f func()) {
+	if f == nil {
+		hooks.Delete(label)
+		return
+	}
+	hooks.Store(label, f)
+}
+
+// Point runs the callback installed at label, if any.
+func Point(label string) {
+	if f, ok := hooks.Load(label); ok {
+		f.(func())()
+	}
+}
